@@ -126,6 +126,12 @@ def check_buffer_writers(fx, rep, crate, cfg, armed):
             allowed = in_rc and nm in BUF_ALLOWED_MUT and (nm != 'read' or 'socket::ReadHalf' in (t['callee'].get('trait') or ''))
             if nm == 'new' or (body.name == 'new' and in_rc):
                 allowed = True
+            if in_rc and nm == 'resize' and len(t['args']) >= 2:
+                # resize(len + n, fill) is the growth step written differently
+                import sym as SY
+                e = SY.expr(crate, body, t['args'][1])
+                if e[0] == 'bin' and e[1] == 'Add' and any(x[0] == 'len' or (x[0] == 'call' and x[1] == 'len') for x in (e[2], e[3])):
+                    allowed = True
             key = '%s|buffer-writer|%s|%s' % (body.path, nm, cfg)
             if allowed:
                 rep.ok('R11.2', key, C.where(body, b), 'receive buffer mutated by an enumerated operation of the read loop: %s (%s)' % (nm, BUF_ALLOWED_MUT.get(nm, 'constructor')))
